@@ -416,3 +416,7 @@ dh!(bx_partial_ord_h, 10, bx_partial_ord());
 dh!(bx_downcast_h, 10, bx_downcast());
 dh!(bx_slices_h, 10, bx_slices());
 dh!(bx_from_vec_spare_h, 36, bx_from_vec_spare());
+
+// (A Vec of zero-sized elements with a destructor cannot be analysed: Kani 0.68 rejects the
+// dangling-pointer arithmetic of zero-sized IntoIter with "does not support reasoning about
+// pointer to unallocated memory"; measured, see DESIGN.)
